@@ -106,6 +106,12 @@ func main() {
 			_ = os.WriteFile(fmt.Sprintf("%s/asm%d.yml", os.Args[2], i), []byte(c10.AssembleIndex(i)), 0o644)
 		}
 		os.Exit(0)
+	case "matrix":
+		// development aid: writes the feature-matrix documents of the typed exchange to a directory
+		for _, f := range xch.WriteMatrix(os.Args[2]) {
+			fmt.Println(f)
+		}
+		os.Exit(0)
 	case "instrument":
 		os.Exit(instrument())
 	case "xbuild":
